@@ -1434,6 +1434,9 @@ class ServiceClass:
                     )
                     return
 
+                # A yield that isn't a (status, dataset) pair is handled like
+                #   an exception raised by the handler
+                _status, _dataset = result
                 yield (result, None)
         except Exception:
             yield (None, sys.exc_info())
